@@ -49,7 +49,9 @@ def loop_restructure_helper(scfg: SCFG, loop: Set[str]) -> None:
         loop_head = next(iter(headers))
     # If there is only a single exiting latch (an exiting block that also has a
     # backedge to the loop header) we can exit early, since the condition for
-    # SCFG is fullfilled.
+    # SCFG is fullfilled. This only holds if the latch has no further jump
+    # target inside the loop: otherwise it may be part of an inner loop, which
+    # can not be restructured once the latch carries a declared backedge.
     backedge_blocks = [
         block
         for block in loop
@@ -59,6 +61,10 @@ def loop_restructure_helper(scfg: SCFG, loop: Set[str]) -> None:
         len(backedge_blocks) == 1
         and len(exiting_blocks) == 1
         and backedge_blocks[0] == next(iter(exiting_blocks))
+        and not any(
+            jt in loop and jt not in headers
+            for jt in scfg[backedge_blocks[0]].jump_targets
+        )
     ):
         scfg.add_block(
             scfg.graph.pop(backedge_blocks[0]).declare_backedge(loop_head)
